@@ -19,7 +19,12 @@ class TealLabel(TealComponent):
         return self.label
 
     def assemble(self) -> str:
-        comment = "\n// {}\n".format(self.comment) if self.comment is not None else ""
+        comment = ""
+        if self.comment is not None:
+            # one comment line per line of text: a line break in the comment (e.g. in a
+            # subroutine name) must not end the comment and start an instruction
+            lines = self.comment.splitlines() or [""]
+            comment = "\n" + "".join("// {}\n".format(line) for line in lines)
         return "{}{}:".format(comment, self.label.getLabel())
 
     def __repr__(self) -> str:
